@@ -11,6 +11,7 @@ oracle:         reconstruction of the full table from printed table + uniform li
                 with the data file; Codespeed requests received by a local HTTP server (incremental and final
                 mode) compared with the samples in the data file"""
 import itertools
+import copy
 import json
 import os
 import shutil
@@ -109,6 +110,11 @@ def table_part(chk):
     while len(exprs) < n and tries < 20 * n:
         tries += 1
         raw, expected = gen_config(rng)
+        if rng.random() < 0.25:
+            # an A/B experiment: the same executions with another environment - runs of their own (the env is part of a
+            # run's identity) that agree in every column the report shows, and here also in their samples
+            raw["experiments"]["Y"] = dict(copy.deepcopy(raw["experiments"]["X"]), env={"MODE": "b"})
+            expected = expected * 2
         if not 1 <= len(expected) <= 12:
             continue
         # even out the sizes
@@ -119,10 +125,15 @@ def table_part(chk):
         runs = cnf.get_runs()
         runs_data = []
         same_for_all = rng.random() < 0.3     # makes #Samples (and maybe the mean) uniform columns
-        for r in runs:
-            k = 3 if same_for_all else rng.choice([0, 0, 1, 2, 5])
-            for j in range(k):
-                r.statistics.add_sample(rng.choice([0.5, 1.5, 2.5, 10.0, 10.4, 10.6, 123.456]) if not same_for_all else rng.choice([2.5, 3.5]))
+        planned = {}
+        for r in sorted(runs, key=lambda r_: (tuple(r_.as_str_list(0)[:-1]), sorted(r_.env.items()))):
+            ident_ = tuple(r.as_str_list(0)[:-1])
+            if ident_ not in planned:
+                k = 3 if same_for_all else rng.choice([0, 0, 1, 2, 5])
+                planned[ident_] = [rng.choice([0.5, 1.5, 2.5, 10.0, 10.4, 10.6, 123.456]) if not same_for_all else rng.choice([2.5, 3.5]) for _ in range(k)]
+            k = len(planned[ident_])
+            for v_ in planned[ident_]:
+                r.statistics.add_sample(v_)
             mean = Fraction(r.get_mean_of_totals())
             runs_data.append((tuple(r.as_str_list(0)[:-1]), r.get_number_of_data_points(), mean, k))
         case = dict(config=raw, samples=[(d[0], d[3]) for d in runs_data])
@@ -140,13 +151,11 @@ def table_part(chk):
             it = iter(row)
             full.append(tuple(sm[nm] if nm in sm else next(it) for nm in NAMES))
         exp_full = []
-        by_ident = {d[0]: d for d in runs_data}
-        for ident in expected:
-            d = by_ident.get(ident)
-            if d is None:
-                chk.violation("C18 every selected run has a row", case, ident, sorted(by_ident))
-                continue
-            exp_full.append(ident + (d[1], "Failed" if d[3] == 0 else round_half_even(d[2])))
+        if sorted(d[0] for d in runs_data) != sorted(expected):
+            chk.violation("C18 the selected runs are the configured ones", case, sorted(expected), sorted(d[0] for d in runs_data))
+            continue
+        for d in runs_data:
+            exp_full.append(d[0] + (d[1], "Failed" if d[3] == 0 else round_half_even(d[2])))
         if sorted(map(repr, full)) != sorted(map(repr, exp_full)):
             chk.violation("C18 table + uniform values list every run once with #samples and rounded mean", case,
                           sorted(map(repr, exp_full)), sorted(map(repr, full)))
